@@ -80,7 +80,18 @@ def controller_model(facts, res, k_try, k_int, k_req):
     ms, pats = models.standard_models()
     ip = Interp(facts, primitives={}, models=ms)
     ip.pattern_models = pats
-    qidx = [i for i, f in enumerate(fields) if "VecDeque" in (facts.types[f["ty"]].get("path") or "")]
+    def is_queue_ty(tid, depth=0):
+        """the request queue itself, or a single-field wrapper struct of the crate around it (returns the nesting depth, else None)"""
+        tt_ = facts.types[tid]
+        if "VecDeque" in (tt_.get("path") or ""):
+            return depth
+        if tt_.get("k") == "adt" and tt_.get("adt") == "struct" and tt_.get("local") and depth < 2:
+            fl_ = (tt_.get("variants") or [{}])[0].get("fields") or []
+            if len(fl_) == 1:
+                return is_queue_ty(fl_[0]["ty"], depth + 1)
+        return None
+    qdepth = {i: is_queue_ty(f["ty"]) for i, f in enumerate(fields)}
+    qidx = [i for i, d_ in qdepth.items() if d_ is not None]
     if len(qidx) != 1:
         res.errors.append("the interrupt controller does not have exactly one VecDeque field (%d)" % len(qidx))
         return set()
@@ -198,6 +209,8 @@ def controller_model(facts, res, k_try, k_int, k_req):
         fs = list(cpu.fields)
         icf = [None] * len(fields)
         icf[qidx] = Opaque("queue")
+        for _ in range(qdepth[qidx]):
+            icf[qidx] = Agg([icf[qidx]])
         for (i, n, bits) in aux:
             icf[i] = Int(bits)
         fs[ic_i] = Agg(icf)
